@@ -263,6 +263,10 @@ def validateFeeder (s : State) (feeder : Acct) (validator : String) : Bool :=
     | none => false
     | some v => v.bonded && (feeder == opAcc i || (alGet s.os.feeders (valName i)).getD (opAcc i) == feeder)
 
+/-- `validateGasPrices`: every entry is a valid denomination with a price that is not negative; the order is free, and so are
+repetitions (the first entry an offer covers decides) -/
+def pricesValid (ps : List (Str × Int)) : Bool := ps.all (fun p => validDenom p.1 && decide (0 ≤ p.2))
+
 def validatorOfOracleMsg : Msg → Option String
   | .op _ (.prevote _ v _ _) => some v
   | .op _ (.vote _ v _ _ _) => some v
